@@ -80,7 +80,7 @@ def design_runs(ctx: Ctx, invariants_of_interest):
     ctx.notes['design_invariants'] = invariants_of_interest
 
 
-def carver_pipeline(ctx: Ctx, prefix: str, *, n_random_quick=500, n_random_thorough=20000, exhaustive=True,
+def carver_pipeline(ctx: Ctx, prefix: str, *, n_random_quick=500, n_random_thorough=4000, exhaustive=True,
                     nontrivial=lambda case, info: True):
     """Generate + run + judge; attribute clauses starting with `prefix` to ctx.pid."""
     from ..drivers import carve_gen
